@@ -28,6 +28,15 @@ var props = map[string]*PropDef{}
 func register(id string, d *PropDef) { props[id] = d }
 
 func main() {
+	// go/packages runs the `go` found through this process's PATH: make sure it is the
+	// toolchain that can load the repository offline (see DESIGN.md §2)
+	os.Setenv("PATH", "/opt/veriftools/go1.26.8/bin:"+os.Getenv("PATH"))
+	for _, kv := range []string{"GOTOOLCHAIN=local", "GOFLAGS=-mod=mod", "GOPROXY=off", "GOSUMDB=off", "GOWORK=off"} {
+		p := strings.SplitN(kv, "=", 2)
+		os.Setenv(p[0], p[1])
+	}
+	os.Unsetenv("GOARCH")
+	os.Unsetenv("GOOS")
 	repo := flag.String("repo", "/repo", "repository root")
 	verif := flag.String("verif", "/verif", "verification directory")
 	flag.Parse()
